@@ -86,6 +86,7 @@ type c13Side struct {
 	PeerLeaf  []byte `json:"-"`                   // leaf certificate seen from the peer
 	ConnType  string `json:"conn_type,omitempty"` // type returned by Conn()
 	HandShake string `json:"handshake,omitempty"` // "ok" or the error
+	Resumed   bool   `json:"resumed,omitempty"`   // ConnectionState().DidResume of this end (abbreviated handshake: session ticket / PSK)
 }
 
 func (s *c13Side) fail(err error) {
@@ -142,6 +143,7 @@ func c13ReferenceClient(addr string, cfg *gotls.Config, plain string) *c13Side {
 		}
 		r.HandShake = "ok"
 		r.TLS = true
+		r.Resumed = tc.ConnectionState().DidResume
 		rw = tc
 		plain = "ping\n"
 	}
@@ -199,6 +201,7 @@ func c13AcceptOnce(ln *net.TCPListener, mng types.TLSContextManager) *c13Side {
 	r.GotApp = true
 	if tc, ok := conn.(*TLSConn); ok {
 		r.TLS = tc.ConnectionState().HandshakeComplete
+		r.Resumed = tc.ConnectionState().DidResume
 		r.HandShake = "ok"
 	}
 	if _, err := conn.Write([]byte("pong\n")); err != nil {
